@@ -87,7 +87,7 @@ def run(ctx):
     K[0] = ctx.budget(5, 20)
     ctx.rule = ("generated programs x seeded permutations of statements / bodies / query and evidence order; a case = one "
                 "program with its permutation seed; non-trivial = at least one query instance and more than one world")
-    return cfgprop.run(ctx, MODULE, THEOREMS, variants, nq=50, nt=800, level="other",
+    return cfgprop.run(ctx, MODULE, THEOREMS, variants, nq=50, nt=500, level="other",
                        explanation="Specification-level permutation invariance is proved in Lean (see obligation list); "
                                    "the engine is compared with the specification on every permuted run (exploration of the "
                                    "order quantifier, not a proof about the engine).")
